@@ -30,6 +30,8 @@ module Nat :
   val ltb : nat -> nat -> bool
  end
 
+val nth : nat -> 'a1 list -> 'a1 -> 'a1
+
 val nth_error : 'a1 list -> nat -> 'a1 option
 
 val rev : 'a1 list -> 'a1 list
@@ -357,7 +359,7 @@ type stmt =
 | SSkip
 | SSeq of stmt * stmt
 | SAssign of var * atom_e
-| SCall of var option * fname * atom_e list
+| SCall of nat * var option * fname * atom_e list
 | SDeref of dsite * var
 | SIf of cond * stmt * stmt
 | SWhile of cond * stmt
@@ -411,6 +413,8 @@ type asite =
 | SParam of fname * nat
 | SResult of fname
 | SGlobal of nat
+| SCallParam of fname * nat
+| SCallResult of fname * nat
 
 val enc : asite -> site
 
@@ -424,9 +428,16 @@ val asite_eqb : asite -> asite -> bool
 
 val prod_eqb : prod0 -> prod0 -> bool
 
-val kind_of : prod0 -> kind
-
 val use_ok : prod0 list -> bool
+
+type scons =
+| CAlways
+| CSite of asite
+
+type strig = { s_id : nat; s_prod : prod0; s_cons : scons;
+               s_ctrl : asite option }
+
+val mk_trigger : nat -> prod0 -> scons -> strig
 
 type aset = prod0 list
 
@@ -439,8 +450,6 @@ val aget : env -> var -> aset
 val aput : env -> var -> aset -> env
 
 val prods_of_atom : env -> atom_e -> aset
-
-val mk_trigger : nat -> prod0 -> kind -> trigger
 
 val keys : env -> var list
 
@@ -456,36 +465,75 @@ val join : env -> env -> env
 
 val join_opt : env option -> env option -> env option
 
-val acond : cond -> env -> ((env * env) * trigger list) * bool
+val acond : cond -> env -> ((env * env) * strig list) * bool
 
 val cond_true : cond -> env -> env
 
-val store_triggers : var -> aset -> trigger list
+val store_triggers : var -> aset -> strig list
 
-val arg_triggers : env -> fname -> nat -> atom_e list -> trigger list
+val arg_triggers : env -> (nat -> asite) -> nat -> atom_e list -> strig list
 
 val fresh : env -> nat -> bool
 
 val mark_stale : nat -> env -> env
 
-type ares = { a_env : env option; a_trig : trigger list; a_gsafe : bool }
+val is_nil_atom : atom_e -> bool
+
+val call_param_site : (fname -> bool) -> fname -> nat -> nat -> asite
+
+val call_result_site :
+  (fname -> bool) -> (fname -> bool) -> fname -> nat -> atom_e list -> asite
+
+type ares = { a_env : env option; a_trig : strig list; a_gsafe : bool }
 
 val loop_inv :
   (env -> ares option) -> cond -> nat -> env -> (env * ares) option
 
-val analyze : nat -> fname -> nat -> stmt -> env -> ares option
+val analyze :
+  nat -> (fname -> bool) -> (fname -> bool) -> fname -> nat -> stmt -> env ->
+  ares option
 
 val entry_env : fname -> nat -> nat -> env
 
-val analyze_func : nat -> nat -> fname -> func -> (trigger list * bool) option
+val falloff : fname -> strig
+
+val analyze_func :
+  nat -> nat -> (fname -> bool) -> (fname -> bool) -> fname -> func -> (strig
+  list * bool) option
 
 val analyze_funcs :
-  nat -> nat -> fname -> func list -> (trigger list list * bool) option
+  nat -> nat -> (fname -> bool) -> (fname -> fname -> bool) -> fname -> func
+  list -> (strig list list * bool) option
 
-val decl_triggers : nat -> bool list -> trigger list
+val decl_triggers : nat -> bool list -> strig list
+
+val is_param_prod : fname -> strig -> bool
+
+val is_res_cons : fname -> strig -> bool
+
+val touches : fname -> strig -> bool
+
+val dupt : fname -> nat -> strig -> strig
+
+val dups : fname -> nat -> strig list -> strig list
+
+val calls_of : stmt -> (fname * nat) list
+
+val dups_of_caller :
+  (fname -> bool) -> (fname -> bool) -> strig list list -> func -> strig list
+
+val dups_all :
+  (fname -> bool) -> (fname -> fname -> bool) -> strig list list -> fname ->
+  func list -> strig list list
+
+val ctr_local :
+  (fname -> bool) -> (fname -> fname -> bool) -> fname -> func list -> bool
+
+type pres = { r_decl : strig list; r_funcs : strig list list;
+              r_dups : strig list list; r_gsafe : bool; r_clocal : bool }
 
 val analyze_program :
-  nat -> program -> ((trigger list * trigger list list) * bool) option
+  nat -> (fname -> bool) -> (fname -> nat) -> program -> pres option
 
 val var_ok : program -> var -> bool
 
@@ -496,3 +544,5 @@ val cond_ok : program -> cond -> bool
 val stmt_ok : program -> stmt -> bool
 
 val wf_program : program -> bool
+
+val ctr_arity : (fname -> bool) -> fname -> func list -> bool
